@@ -1,6 +1,5 @@
 """Plans for the EX-A engine (event-history exploration over virtual sockets/clock)."""
-V = '/verif/.build'
-T = [V + '/bin/exa']
+T = ['bin/exa']  # make targets relative to the build dir
 
 ASSUME = [
     'single-threaded channel without event thread; the application is a well-behaved event loop (services only announced+ready descriptors, fires the timer exactly at the ares_timeout() hint)',
